@@ -67,7 +67,7 @@ def gen_case(seed, tier):
     mfs = rng.choice((0, 8, 8, 2 ** 15))
     big_n = {0: 12, 8: 40, 2 ** 15: 2 ** 15 + 5}[mfs]
     settings = {'disk_min_file_size': mfs}
-    if target in ('cache', 'fanout', 'django'):
+    if target in ('cache', 'fanout', 'django', 'recipe'):      # for recipes too: these settings turn their lookups into writes
         settings['eviction_policy'] = rng.choice(('least-recently-stored', 'least-recently-stored', 'least-recently-used',
                                                   'least-frequently-used', 'none'))
         settings['statistics'] = rng.choice((0, 0, 1))
